@@ -11,6 +11,7 @@ Decided:
          duration tasks end at time(slot + 1) forward / time(slot + 0) backward
   R06.5  the completion test compares accumulated effort against the requested effort with >=
   R06.6  the predecessor's part of the start slot is reserved exactly when less than the offset is in use
+  R06.7  a forward milestone dated by its dependency bound includes the bound's offset inside the slot
 Not decided: tightness as a numeric fact.
 """
 from __future__ import annotations
@@ -73,6 +74,33 @@ def completion_test_rule(ctx: Ctx, rid: str):
                    key=key_of(rid, slot, None, "completion"))
     if not found:
         raise AnchorMissing("completion test not found in scheduleSlot")
+
+
+def milestone_bound_rule(ctx: Ctx, rid: str):
+    """scheduleSlot: a forward milestone dated by its dependency bound (no pinned start) gets slot time + intra-slot offset of the
+    bound (C04 R04.10 / C06 R06.7)."""
+    from .common import enclosing_ifs
+    slot = ctx.repo.func("TaskScenario.scheduleSlot")
+    fd = ctx.dep.of(slot)
+    n = 0
+    for pid in ("start", "end"):
+        for atoms, node, sc, tgt in pattr_writes(ctx, slot, pid):
+            encl = enclosing_ifs(node.ast, slot.node)
+            in_ms = any(norm(i.test) == "is_milestone" and b == "T" for (i, b) in encl)
+            fwd = any(norm(i.test) == "forward" and b == "T" for (i, b) in encl)
+            unpinned = any(norm(i.test) == "start_date" and b == "F" for (i, b) in encl)
+            if not (in_ms and fwd and unpinned):
+                continue
+            n += 1
+            d = data(atoms)
+            ok = {"field:slotStartOffset", "call:idxToDate", "field:currentSlotIdx"} <= d
+            ctx.ob(rid, f"{slot.qual}: milestone {pid} := {norm(node.ast.value)[:40]} at the dependency bound", (slot, node.ast), ok,
+                   "date = time(current slot) + offset of the bound inside the slot" if ok else
+                   "a milestone dated by its dependency bound is put at the START of the slot that contains the bound: after a "
+                   "predecessor ending mid-slot it is reported before the predecessor's end",
+                   key=key_of(rid, slot, None, f"milestone bound {pid}"))
+    if n < 2:
+        raise AnchorMissing(f"scheduleSlot: milestone writes at the dependency bound found: {n}")
 
 
 def precise_end_rules(ctx: Ctx, rid: str):
@@ -357,6 +385,8 @@ def run(ctx: Ctx):
     from .c01 import offset_reservation_rule
     offset_reservation_rule(ctx, "R06.6")
     ctx.floor("R06.6", 1)
+    milestone_bound_rule(ctx, "R06.7")
+    ctx.floor("R06.7", 2)
     ctx.floor("R06.1", 6)
     ctx.floor("R06.2", 3)
     ctx.floor("R06.3", 6)
